@@ -390,13 +390,26 @@ func (o *OS) openFile(name string, flag int, perm os.FileMode) (*os.File, error)
 // rootOpenFile tracks descriptors opened through an os.Root (the LOCK file): they are not part of
 // the persistence model, but Kill must be able to close them, which releases their flock.
 func (o *OS) rootOpenFile(r *os.Root, name string, flag int, perm os.FileMode) (*os.File, error) {
+	full := filepath.Join(r.Name(), name)
+	_, lerr := os.DsimRealLstat(full)
 	f, err := os.DsimRealRootOpenFile(r, name, flag, perm)
 	if err != nil {
 		return nil, err
 	}
-	if rp, ok := o.rel(filepath.Join(r.Name(), name)); ok {
+	if rp, ok := o.rel(full); ok {
 		o.mu.Lock()
 		o.files[f] = &openFile{path: rp, actor: o.cur, isDir: true} // isDir: reads/writes pass through unrecorded
+		if lerr != nil && o.Now != nil {
+			// the file was created by this open: give it an inode and a simulated mtime
+			o.nextIn++
+			o.inoOf[rp] = o.nextIn
+			st := o.Now()
+			if !st.After(o.lastStamp) {
+				st = o.lastStamp.Add(time.Nanosecond)
+			}
+			o.lastStamp = st
+			o.mtimes[o.nextIn] = st
+		}
 		o.mu.Unlock()
 	}
 	return f, nil
@@ -694,7 +707,11 @@ func (o *OS) withMtime(rp string, fi os.FileInfo) os.FileInfo {
 	if ok && ino != 0 {
 		return os.DsimWithModTime(fi, t)
 	}
-	return fi
+	if fi.IsDir() {
+		return fi
+	}
+	// a file the simulator has no stamp for must not leak the real clock into simulated time
+	return os.DsimWithModTime(fi, time.Date(2000, 1, 1, 0, 0, 0, 0, time.UTC))
 }
 
 func (o *OS) withMtimeIno(ino int, fi os.FileInfo) os.FileInfo {
